@@ -52,7 +52,7 @@ func init() {
 	vrt.Register(&vrt.Prop{
 		ID: "C20", Level: "exploration",
 		Rule: "VOLE: case = (vector length from the boundary list or PRNG, modulus from {P-256 prime, 2^255-19, 2^256-189, 2^128-159, 2^127-1, 2^64+13, 2^64-59, 2^63-25, 2^61-1, 2^32-5, 2^31-1, 65537, 251, 5, 3, 2}, base OT in {CO, ideal}, transport in {p2p.Pipe, p2p.Conn over fragmenting tap}, 1-3 Mul calls per instance); oracle (u_i - r_i) mod p == x_i*y_i mod p for every i. " +
-			"bmr.Fx: all (a,b) x repetitions; bmr.Fxk: s in {0, all-ones, random} x b; OT in {CO, COT}; 1-3 sessions of one process run concurrently, each on its own OT instance and connection, senders pausing at PRNG-chosen operations; oracle r xor x_b == a*b resp. b*s. Distinct = (kind, length, modulus, operands hash).",
+			"bmr.Fx: all (a,b) x repetitions; bmr.Fxk: s in {0, all-ones, uniform, one non-zero byte, one bit, zero prefix, zero suffix} x b; OT in {CO, COT}; 1-3 sessions of one process run concurrently, each on its own OT instance and connection, senders pausing at PRNG-chosen operations; oracle r xor x_b == a*b resp. b*s. Distinct = (kind, length, modulus, operands hash).",
 		NumCases: func(t string) int {
 			if t == "thorough" {
 				return 1200
@@ -227,9 +227,7 @@ func c20FxFaulty(cs *vrt.Case, r *vrt.Rng) {
 	var ops []op
 	for i := 0; i < 6; i++ {
 		if r.Intn(3) == 0 {
-			var s bmr.Label
-			r.Read(s[:])
-			ops = append(ops, op{k: true, b: uint(r.Intn(2)), s: s})
+			ops = append(ops, op{k: true, b: uint(r.Intn(2)), s: c20Label(r)})
 		} else {
 			ops = append(ops, op{a: uint(r.Intn(2)), b: uint(r.Intn(2))})
 		}
@@ -352,16 +350,7 @@ func c20FxSession(cs *vrt.Case, mu *sync.Mutex, r *vrt.Rng, sess, nsess int) {
 			}
 		}
 		for b := uint(0); b < 2; b++ {
-			var s bmr.Label
-			switch r.Intn(3) {
-			case 1:
-				for j := range s {
-					s[j] = 0xff
-				}
-			case 2:
-				r.Read(s[:])
-			}
-			ops = append(ops, op{k: true, b: b, s: s})
+			ops = append(ops, op{k: true, b: b, s: c20Label(r)})
 		}
 	}
 	pr := r.Fork()
@@ -441,4 +430,45 @@ func c20FxSession(cs *vrt.Case, mu *sync.Mutex, r *vrt.Rng, sess, nsess int) {
 			cs.Key("fx", fmt.Sprint(o.a, o.b, rr[i]))
 		}
 	}
+}
+
+// c20Label draws the string operand of Fxk from value classes, not only from
+// the uniform ones: zero, all-ones, uniform, and sparse labels (one non-zero
+// byte or one bit at a PRNG-chosen position, a zero prefix or suffix of
+// PRNG-chosen length), so that a shortcut keyed on "looks like zero" or on a
+// part of the label is driven.
+func c20Label(r *vrt.Rng) bmr.Label {
+	var s bmr.Label
+	switch r.Intn(8) {
+	case 0:
+	case 1:
+		for j := range s {
+			s[j] = 0xff
+		}
+	case 2, 3:
+		r.Read(s[:])
+	case 4:
+		s[r.Intn(len(s))] = byte(1 + r.Intn(255))
+	case 5:
+		s[r.Intn(len(s))] = 1 << uint(r.Intn(8))
+	case 6: // zero prefix
+		r.Read(s[:])
+		n := 1 + r.Intn(len(s)-1)
+		for j := 0; j < n; j++ {
+			s[j] = 0
+		}
+		if s[len(s)-1] == 0 {
+			s[len(s)-1] = 1
+		}
+	default: // zero suffix
+		r.Read(s[:])
+		n := 1 + r.Intn(len(s)-1)
+		for j := len(s) - n; j < len(s); j++ {
+			s[j] = 0
+		}
+		if s[0] == 0 {
+			s[0] = 0x80
+		}
+	}
+	return s
 }
